@@ -28,6 +28,8 @@ class _Chan:
         return gen.plats_data(rng, 0, n)
 
     def item(self, rng, i, n=4):
+        if rng.random() < 0.5:
+            i = rng.randint(0, 2)         # labels are not unique: several items may carry the same one
         if self.name == "EMG":
             return gen.emg_track(rng, n, lab=f"s{i}")
         if self.name == "PlatformsCalibration":
@@ -104,7 +106,8 @@ def check_c15(seed, tier):
                             fails.append(_f("C15", "C15.frame", name, "adding a pair changed an existing pair", case, seed))
                     elif op == "add_free":
                         it = A.item(rng, step)
-                        free = rng.choice([c for c in range(0, 8 if rng.random() < 0.6 else 40) if c not in [int(x) for x, _ in before]])
+                        used = [int(x) for x, _ in before]
+                        free = rng.choice([c for c in range(0, 8 if rng.random() < 0.6 else 40) if c not in used] or [c for c in range(0, 400) if c not in used])
                         A.add(b, it, free)
                         after = A.pairs(b)
                         if len(after) != len(before) + 1 or int(after[-1][0]) != free or after[-1][1] is not it:
@@ -123,8 +126,23 @@ def check_c15(seed, tier):
                         pos = rng.randrange(len(before))
                         if name == "EMG":
                             lab = before[pos][1].label
-                            pos = next(i for i, (_, s) in enumerate(before) if s.label == lab)
                             b.removeSignal(lab)
+                            # by label: what is removed carries the label (at least one item goes), and every survivor keeps
+                            # its place in the order and the channel it was given
+                            after = A.pairs(b)
+                            keep = [(int(c), id(p)) for c, p in before if id(p) in {id(q) for _, q in after}]
+                            gone = [p for _, p in before if id(p) not in {id(q) for _, q in after}]
+                            if [(int(c), id(p)) for c, p in after] != keep:
+                                fails.append(_f("C15", "C15.remove", name, f"after removeSignal({lab!r}) the surviving signals do not keep their channels: "
+                                                f"{[(int(c), p.label) for c, p in after]} from {[(int(c), p.label) for c, p in before]}", case, seed))
+                            if not gone or any(p.label != lab for p in gone):
+                                fails.append(_f("C15", "C15.remove", name, f"removeSignal({lab!r}) removed {[p.label for p in gone]}", case, seed))
+                            hist.append(op)
+                            lm, li = A.lens(b)
+                            if lm != li:
+                                fails.append(_f("C15", "C15.lengths", name, f"channel list has {lm} entries, item list {li} after {op}", case, seed))
+                                break
+                            continue
                         elif name == "PlatformsCalibration":
                             if rng.random() < 0.5:
                                 b.remove_platform(pos)
@@ -323,6 +341,16 @@ def check_c14(seed, tier):
             except Exception as e:
                 fails.append(_f("C14", "C14.exception", name, f"comparison raised {e!r}", case, seed))
                 continue
+            # history: d has just been compared (and encoded); edited in place without changing its size it must differ
+            try:
+                from harness import edits
+                n += 1
+                desc = edits.edit_in_place(name, d, rng, size_preserving=True)
+                if desc and encode(name, d)[0] != encode(name, b)[0] and (eq(b, d) or eq(d, b)):
+                    fails.append(_f("C14", "C14.differs", name, f"a block edited in place after a comparison ({desc[:120]}) still compares equal to its former twin",
+                                    dict(block=name, index=i, variation="in-place edit after comparison"), seed))
+            except Exception as e:
+                fails.append(_f("C14", "C14.exception", name, f"comparison after an in-place edit raised {e!r}", dict(block=name, index=i, variation="in-place edit after comparison"), seed))
             for desc, c in _vary(name, rng, b):
                 n += 1
                 try:
